@@ -16,6 +16,8 @@ type Project struct {
 	Files     []*File
 	GitIgnore string // content of .gitignore at the root ("" = none)
 	Layout    string // flat | nested | maven
+	// the type/method the generator biased call sites towards (Opts.HotBias), if any
+	HotPkg, HotClass, HotMethod string
 }
 
 type Import struct {
@@ -44,6 +46,7 @@ type Param struct {
 	Type, Name string
 	Final      bool
 	Annotation string // e.g. "@Valid" or ""
+	Dims       string // C-style array brackets written after the name: `int samples[]` (Type is then the part left of the name)
 }
 
 // Receiver classes of a call site (C02).
